@@ -95,7 +95,14 @@ func selfTest() string {
 	for _, c := range cases {
 		p := c.p
 		r := rs.runHook(&p, c.skip, false)
-		got := fmt.Sprintf("nat=%s tproxy=%s drop=%v mark=%d zone=%d", r.nat, r.tproxy, r.dropped, p.mark, r.zone)
+		nat, tp := "", ""
+		if r.nat != 0 {
+			nat = fmt.Sprint("REDIRECT:", r.nat)
+		}
+		if r.tproxy != 0 {
+			tp = fmt.Sprint("TPROXY:", r.tproxy)
+		}
+		got := fmt.Sprintf("nat=%s tproxy=%s drop=%v mark=%d zone=%d", nat, tp, r.dropped, p.mark, r.zone)
 		if got != c.want {
 			return fmt.Sprintf("%s: got %q want %q", c.name, got, c.want)
 		}
